@@ -9,15 +9,16 @@
     `Ghost`       nOwes / nOwesBc are the sums of owes / owesBc over a finite duplicate-free support
     `ParkedList`  the goroutines in phase `parked` form a duplicate-free list of length nParked
 
-  For every state reachable without a `wPark` by the event-loop goroutine (`ReachP`, `reachP_inv`),
-  with  Cov s g := owesBc g < nOwesBc ∨ dph.active ∨ tok ∨ 0 < nOwes ∨ 0 < cur
-  (a Broadcast that g does not perform itself is on its way):
+  and, with  Cov s g := owesBc g < nOwesBc ∨ dph.active ∨ tok ∨ 0 < nOwes ∨ 0 < cur
+  (a Broadcast that g does not perform itself is on its way), `reach_inv`:
     (G) 0 < conc → wph g = sawStatus running → disp ≠ some g → ws = running ∨ Cov s g ∨ (qlen = 0 ∧ cur = 0)
     (E) 0 < conc → wph g = willPark → disp ≠ some g → CondTrue s ∨ Cov s g
     (C) 0 < conc → 0 < nParked → CondTrue s ∨ 0 < nOwesBc ∨ dph.active ∨ tok ∨ 0 < nOwes ∨ 0 < cur
   The premise `0 < conc` is part of the clauses, not of the reachability notion: every step from
   conc = 0 to conc > 0 is a `stConc` upwards, which owes a notify(), so the clauses are restored
-  at that moment.  (G), (E), (C) are false for plain `Reach`: see Proofs/Wake.lean.
+  at that moment.  `disp ≠ some g` in (G), (E): `step` lets the event-loop goroutine evaluate
+  condition() (it never does in the Go code), and for that goroutine the clauses are false; (C)
+  survives because the first guard of `wPark` rejects Cond.Wait by the event-loop goroutine.
 -/
 import VarmqVerif.Model.Wake
 
@@ -91,11 +92,6 @@ theorem invM_step {s s' : State} {e : Ev} (hi : InvM s) (h : step s e = .ok s') 
 def Cov (s : State) (g : Nat) : Prop :=
   s.owesBc g < s.nOwesBc ∨ s.dph.active = true ∨ s.tok = true ∨ 0 < s.nOwes ∨ 0 < s.cur
 
-/-- the event-loop goroutine calls Cond.Wait (in the Go code it never calls WaitUntilFinished) -/
-def loopParks (s : State) : Ev → Bool
-  | .wPark g => isDisp s g
-  | _ => false
-
 /-- (E) a goroutine (other than the event loop) that has decided to park -/
 def InvE (s : State) : Prop :=
   0 < s.conc → ∀ g, s.wph g = .willPark → s.disp ≠ some g → CondTrue s ∨ Cov s g
@@ -133,14 +129,14 @@ theorem invE_step {s s' : State} {e : Ev} (hA : InvA s) (hM : InvM s) (hle : ∀
   cases e <;> wstep_cases h <;> (try simp only [owe, oweBc]) <;>
     grind [isDisp, isQuietStatus, WPh.crit, DPh.willEval, DPh.active, upd]
 
-/-- `wPark g` uses (E) (this is where `g` must not be the event loop); `bcast` makes (C) vacuous -/
+/-- `wPark g` uses (E) (`g` is not the event loop: first guard of `wPark`); `bcast` makes (C) vacuous -/
 theorem invC_step {s s' : State} {e : Ev} (hA : InvA s) (hle : ∀ g, s.owesBc g ≤ s.nOwesBc)
-    (hnp : loopParks s e = false) (hE : InvE s) (hi : InvC s) (h : step s e = .ok s') : InvC s' := by
+    (hE : InvE s) (hi : InvC s) (h : step s e = .ok s') : InvC s' := by
   unfold InvA Dispatchable at hA
   unfold InvE Cov CondTrue at hE
   unfold InvC CondTrue at hi ⊢
   cases e <;> wstep_cases h <;> (try simp only [owe, oweBc]) <;>
-    grind [loopParks, isDisp, WPh.crit, DPh.willEval, DPh.active, upd]
+    grind [isDisp, WPh.crit, DPh.willEval, DPh.active, upd]
 
 /-! ## The ghost counters -/
 
@@ -337,77 +333,6 @@ theorem reach_invM {s : State} (hr : Reach s) : InvM s := by
   | init c => exact invM_init c
   | step e _ h ih => exact invM_step ih h
 
-/-- Reachability by executions in which the event-loop goroutine never calls Cond.Wait. -/
-inductive ReachP : State → Prop
-  | init (c : Nat) : ReachP (init c)
-  | step {s s' : State} (e : Ev) : ReachP s → loopParks s e = false → step s e = .ok s' → ReachP s'
-
-theorem ReachP.reach {s : State} (hr : ReachP s) : Reach s := by
-  induction hr with
-  | init c => exact Reach.init c
-  | step e _ _ h ih => exact Reach.step e ih h
-
-/-- If the event-loop goroutine is never in phase `willPark` (for instance because `step` rejects
-    `wStatus` by the event loop and `recvTok` by a goroutine inside WaitUntilFinished), the
-    restriction is void. -/
-theorem reachP_of_reach (hsep : ∀ s g, Reach s → s.disp = some g → s.wph g ≠ .willPark) {s : State}
-    (hr : Reach s) : ReachP s := by
-  induction hr with
-  | init c => exact ReachP.init c
-  | @step s s' e hr h ih =>
-    refine ReachP.step e ih ?_ h
-    cases e with
-    | wPark g =>
-      simp only [loopParks, isDisp]
-      cases hd : s.disp == some g with
-      | false => rfl
-      | true =>
-        have hd' : s.disp = some g := by simpa using hd
-        have := hsep s g hr hd'
-        wstep_cases h
-        rename_i _ hp
-        simp at hp
-        exact absurd hp this
-    | _ => rfl
-
-/-- The same for a guard in `step`: if `wPark` by the event-loop goroutine is never accepted (one
-    more guard in `wPark`: `if isDisp s g then .error …`), the restriction is void. -/
-theorem reachP_of_guard (hguard : ∀ s g s', Reach s → s.disp = some g → step s (.wPark g) ≠ .ok s') {s : State}
-    (hr : Reach s) : ReachP s := by
-  induction hr with
-  | init c => exact ReachP.init c
-  | @step s s' e hr h ih =>
-    refine ReachP.step e ih ?_ h
-    cases e with
-    | wPark g =>
-      simp only [loopParks, isDisp]
-      cases hd : s.disp == some g with
-      | false => rfl
-      | true => exact absurd h (hguard s g s' hr (by simpa using hd))
-    | _ => rfl
-
-/-- `run` that rejects Cond.Wait by the event-loop goroutine -/
-def runP (s : State) : List Ev → Except String State
-  | [] => .ok s
-  | e :: es =>
-    if loopParks s e then .error "the event loop goroutine calls Cond.Wait"
-    else match step s e with
-      | .ok s' => runP s' es
-      | .error m => .error m
-
-theorem reachP_runP {s s' : State} {es : List Ev} (hr : ReachP s) (h : runP s es = .ok s') : ReachP s' := by
-  induction es generalizing s with
-  | nil => simp only [runP] at h; cases h; exact hr
-  | cons e es ih =>
-    simp only [runP] at h
-    split at h
-    · cases h
-    · rename_i hb
-      split at h
-      · rename_i s1 h1
-        exact ih (ReachP.step e hr (by simpa using hb) h1) h
-      · cases h
-
 structure Inv (s : State) : Prop where
   ab : InvAB s
   m : InvM s
@@ -421,13 +346,13 @@ theorem inv_init (c : Nat) : Inv (init c) := by
   · intro _ g h; simp [init] at h
   · intro _ h; simp [init] at h
 
-theorem reachP_inv {s : State} (hr : ReachP s) : Inv s := by
+theorem reach_inv {s : State} (hr : Reach s) : Inv s := by
   induction hr with
   | init c => exact inv_init c
-  | @step s s' e hr hnp h ih =>
-    have hle : ∀ g, s.owesBc g ≤ s.nOwesBc := sumOf_le (reach_ghost hr.reach).2
+  | @step s s' e hr h ih =>
+    have hle : ∀ g, s.owesBc g ≤ s.nOwesBc := sumOf_le (reach_ghost hr).2
     exact ⟨invAB_step ih.ab h, invM_step ih.m h, invG_step ih.ab.1 ih.m hle ih.g h,
-      invE_step ih.ab.1 ih.m hle ih.g ih.e h, invC_step ih.ab.1 hle hnp ih.e ih.c h⟩
+      invE_step ih.ab.1 ih.m hle ih.g ih.e h, invC_step ih.ab.1 hle ih.e ih.c h⟩
 
 end Wake
 end VarmqVerif
